@@ -14,9 +14,13 @@ Domain : recursive patterns (scalars, regex, lists, sets, dicts; depth <= 3) x p
          prop() expands).  Form "ref_rebind": ONE `match $ref.Finished()` / `.Started()` statement visited 2-3 times (helper flow
          awaited for one reference after the other, a loop that re-assigns $ref, helper instances side by side) while $ref refers to
          objects of different kinds (four action types, two flows) - judged at every visit against the events of all objects.
+         One scalar in eight is a LARGE number (integers 1e9..1e19, floats up to 1e300); payload mutation `neighbour-number` (+-1, adjacent
+         float, relative 1e-12..1e-9).  One parameter case in seven holds LONG received strings (case["long"], a compact description that
+         prop() expands: the short text at the start of / inside around position 4096 / at the very end of 4 096-20 000 filler characters).
 Oracle : an independent recursive matcher written from the property text / the language reference.
          Verdict is compared with "does `Hit` appear in the outgoing events".
 """
+import math
 import re
 import warnings
 
@@ -57,13 +61,30 @@ RULE = (
     "waiting for that object) (labels ref-rebind, ref-rebind-helper/-loop/-parallel, ref-type-change / ref-same-type, ref-action-then-flow ..., ref-visits-advanced-N); plus the reference table: every ordered pair of "
     "object kinds (A == B included) x variant x Finished (Started for action pairs) with another instance of A and unknown/None-uid events as distractors. Non-trivial = pattern nesting depth >= 2, or a payload obtained by a "
     "drop/swap/retype mutation (fewer elements, reordered, different container), or a pattern with a string leaf whose source spelling differs from its value (labels escaped-string, "
-    "escaped-string-top-level / -nested-only, single-quoted / double-quoted), or a rebound-reference case in which the statement advanced at >= 2 visits; distinct by (pattern, payload) / the whole case."
+    "escaped-string-top-level / -nested-only, single-quoted / double-quoted), or a rebound-reference case in which the statement advanced at >= 2 visits; distinct by (pattern, payload) / the whole case. "
+    "LARGE NUMBERS: one scalar in eight (every depth, patterns, payloads, inserted/altered elements, unmentioned parameters; the escape-alphabet strings keep their share of one in four) is a large number: an integer of "
+    "{1000000007, 2^31, 2^32-1, 98765432109876, 20260925000001, 2^53, 2^53+1, 17*10^17, 2^63-1, 2^63, 10^19} or a float of {1000000000.5, 123456789012.5, 2^51+1.5, 1e16, 1.5e18, 6.02e23, 1e300}; "
+    "a mutation that hits a number >= 1e9 replaces it, three times in four, by a NEIGHBOUR (kind neighbour-number): integer x+1 / x-1 / x+2, float: the adjacent floats and x*(1 +- r), r in {1e-12, 1e-11, 1e-10, 5e-10, 1e-9} - "
+    "equal scalars means equal, the statement must not advance on a neighbouring number (labels big-number, big-int, big-int-above-2^53, big-float, big-number-top-level / -nested); no integer of the pool or its "
+    "neighbours is numerically equal to a float of the pool or its neighbours, and the oracle skips (unspecified) should numerically equal values of different types ever meet; plus the number table: every pool "
+    "number x (itself, up to 6 neighbours) as the whole parameter, inside a longer list, inside a nested larger dict, inside a larger set, forms and priorities rotating. "
+    "LONG VALUES: in one generated parameter / action-argument case in seven, ONE string leaf of every received value is long: case.long = [[parameter, path, {n, where, at, fill}]] - the drawn short text (regex witness / "
+    "non-witness / any string leaf, preferably one judged by a regex; the first pattern of these cases is made to hold a regex leaf) is placed at the start of / inside / at the very end of n = one of "
+    "{4096, 5000, 6000, 8192, 9000, 12000, 16384, 20000} (+0-16) characters of filler text ('lorem ipsum ', 'xyz ', '-', 'line NEWLINE': no witness of a text-consuming pool regex); 'inside' starts at a position in 4086..4102 "
+    "(three times in four) or anywhere; prop() expands the description, the oracle (re.search on the WHOLE value) judges the expanded payload - top level or nested in lists / sets / dicts, also under many extras "
+    "(labels long-value, long-4000-4999 / 5000-9999 / 10000+, long-text-at-start / -mid / -end, long-text-ends-at-4096 / -around-4096 / -elsewhere, long-on-regex-leaf / -other-leaf, long-top-level / -nested); plus "
+    "the long-string table: every pool regex (both pools, ^ and $ anchored ones included) x (witness, non-witness) x placement (start, very end, inside ending one before / at / one behind position 4096, "
+    "inside starting at 4090 / 4100) with sizes, fillers, shapes (bare, longer list, larger dict, dict inside a list), forms and priorities rotating. Both tables are enumerated first."
 )
 ASSUMPTIONS = [
     "a string literal in a statement denotes the text obtained by the Python string-literal rules (\\t TAB, \\n newline, \\\\ one backslash, \\\" and \\' the quote, \\uXXXX the code point, either quote "
     "character delimits): Colang 2 expressions are evaluated as Python expressions (language reference, 'Working with Variables & Expressions'); 'equal scalars' compares that text with the event's string",
     "strings never contain { } $ or # (string interpolation, variable references and comments are other properties' business)",
-    "numerically equal values of different numeric types (1 vs True vs 1.0) are never generated: the text does not specify them",
+    "numerically equal values of different numeric types (1 vs True vs 1.0, 10**16 vs 1e16) are never generated: the text does not specify them (the number pools are disjoint across types, "
+    "neighbours included; should such a pair meet anyway the case is skipped and counted)",
+    "'equal scalars' for numbers means the same number: a statement naming 1700000000000000000 does not advance on 1700000000000000001 (two integers that are the same double), one naming 123456789012.5 not on a float "
+    "that differs from it by one unit in the last place or by a relative 1e-12..1e-9; events deliver numbers as Python int / float (what json.loads yields), so no precision is lost on the way in",
+    "a regex is searched in the WHOLE received text whatever its length (5 000 - 20 000 characters generated): `$` refers to the end of the value, a find behind any number of other characters is a find",
     "list patterns follow the property text ('expected list items found in order'), not the stricter 'same position' wording of the docs",
     "dict keys return_value/activated/source_flow_instance_uid (filtered by the interpreter) are never used as keys",
     "a regex is 'found in the value' in the sense of re.search on str(value), whatever the length of the span that is found (an empty span is a find)",
@@ -106,6 +127,43 @@ ZW = {p for p, _, _ in REGEX_ZW}
 PRIORITIES = [0.0, 0.1, 0.5, 1.0]
 
 SCALARS = [None, True, False, 2, 3, 7, 2.5, 0.75, "a", "b", "ab", ""]
+
+# LARGE numbers as scalar leaves: integers above 1e9 up to 1e19 (beyond 2**53 two neighbouring integers are the same float),
+# floats of large magnitude.  No integer of the pool (or its neighbours +-1) is numerically equal to a float of the pool
+# (or one of its neighbours): the int-vs-float reading stays un-generated.
+BIG_INTS = [1000000007, 2147483648, 4294967295, 98765432109876, 20260925000001, 9007199254740992, 9007199254740993,
+            1700000000000000000, 9223372036854775807, 9223372036854775808, 10000000000000000000]
+BIG_FLOATS = [1000000000.5, 123456789012.5, 2251799813685249.5, 1e16, 1.5e18, 6.02e23, 1e300]
+BIG_REL = [1e-12, 1e-11, 1e-10, 5e-10, 1e-9]  # relative distances of the float neighbours (plus the adjacent float)
+
+
+def is_num(x):
+    return isinstance(x, (int, float)) and not isinstance(x, bool)
+
+
+def is_big(x):
+    return is_num(x) and abs(x) >= 1e9
+
+
+def number_neighbours(x):
+    """Numbers next to x that are NOT equal to x: integers x-1, x+1, x+2; floats: the adjacent floats and x*(1 +- r) for r in BIG_REL."""
+    if isinstance(x, int):
+        return [x + 1, x - 1, x + 2]
+    out = [math.nextafter(x, math.inf), math.nextafter(x, -math.inf)]
+    for r in BIG_REL:
+        out += [x * (1 + r), x * (1 - r)]
+    res = []
+    for v in out:
+        if v != x and math.isfinite(v) and v not in res:
+            res.append(v)
+    return res
+
+
+# LONG received strings (5 000 - 20 000 characters) for the leaves judged by a regex (or any other string leaf): the case holds a
+# compact description, prop() expands it.  Filler texts contain no witness of a text-consuming pool regex.
+LONG_FILLERS = ["lorem ipsum ", "xyz ", "-", "line\n"]
+LONG_SIZES = [5000, 9000, 4096, 8192, 12000, 20000, 6000, 16384]
+LONG_ATS = list(range(4086, 4103))  # where the short text starts when it is placed inside the filler
 
 # strings whose SOURCE SPELLING differs from their value: the statement writes them with escape sequences
 # (Colang string literals follow the Python rules: backslash-t is a tab, two backslashes are one backslash, backslash-u00e9 is e-acute).
@@ -237,6 +295,8 @@ def ref_match(P, V):
     # scalars: equal values of the same type
     if is_set(V) or isinstance(V, (list, dict)):
         return False
+    if type(P) is not type(V) and isinstance(P, (bool, int, float)) and isinstance(V, (bool, int, float)) and P == V:
+        raise Unspecified("numerically equal values of different numeric types (1 vs True vs 1.0) are not specified")
     return type(P) is type(V) and P == V
 
 
@@ -270,7 +330,10 @@ def depth(x):
 
 esc_string = st.one_of(st.sampled_from(ESC_STRINGS), st.lists(st.sampled_from(ESC_ALPHABET), min_size=1, max_size=4).map("".join))
 # one scalar in four (at every depth, in patterns, payloads, mutations and unmentioned parameters) is a string over the escape alphabet
-scalar = st.one_of(st.sampled_from(SCALARS), st.sampled_from(SCALARS), st.sampled_from(SCALARS), esc_string)
+# ... and one scalar in eight is a LARGE number (integer above 1e9 / float of large magnitude)
+big_number = st.one_of(st.sampled_from(BIG_INTS), st.sampled_from(BIG_FLOATS))
+_small = st.sampled_from(SCALARS)
+scalar = st.one_of(_small, _small, _small, _small, _small, esc_string, esc_string, big_number)
 style_st = st.fixed_dictionaries({"q": st.sampled_from(['"', "'"]), "oq": st.booleans(), "uni": st.booleans(), "rawtab": st.sampled_from([False, False, True])})
 regex = st.one_of(st.sampled_from([{"__regex__": p} for p, _, _ in REGEX]), st.sampled_from([{"__regex__": p} for p, _, _ in REGEX_ZW]))
 priority = st.one_of(st.none(), st.sampled_from(PRIORITIES))  # `priority p` executed before the judged match statement
@@ -443,6 +506,9 @@ def mutate(draw, V, style=None):
         if variants and draw(st.integers(0, 2)) > 0:
             new, kind = draw(st.sampled_from(variants))
             return _set(V, path, new), kind
+    if is_big(sub) and draw(st.integers(0, 3)) > 0:
+        # a neighbouring number: +-1 for an integer, the adjacent float / a relative 1e-12..1e-9 for a float
+        return _set(V, path, draw(st.sampled_from(number_neighbours(sub)))), "neighbour-number"
     new = draw(scalar)
     if in_set or draw(st.integers(0, 3)) > 0:
         return _set(V, path, new), "alter"
@@ -507,6 +573,74 @@ def expand_bulk(pay, extra, bulk):
 
 def bulk_total(bulk):
     return (bulk.get("params", 0) + sum(n for _, _, n in bulk.get("fill", []))) if bulk else 0
+
+
+# ---------------------------------------------------------------------------------------------
+# long received strings: the case holds a compact description, prop() expands it deterministically
+
+
+def long_text(s, spec):
+    """The short text s inside / in front of / behind spec["n"] characters of filler text."""
+    unit, n = spec.get("fill", "xyz "), spec["n"]
+    filler = (unit * (n // len(unit) + 1))[:n]
+    where = spec.get("where", "end")
+    if where == "start":
+        return s + filler
+    if where == "end":
+        return filler + s
+    at = spec.get("at", 0)
+    return filler[:at] + s + filler[at:]
+
+
+def expand_long(pay, long):
+    """Payload after the long-string description has been applied: long = [[parameter, path, {"n": number of filler characters,
+    "where": "start"|"mid"|"end", "at": start position for "mid", "fill": filler unit}], ...] - the string leaf at `path` of the
+    received value of `parameter` is placed at the start of / inside / at the very end of a long filler text."""
+    if not long:
+        return pay
+    pay = dict(pay)
+    for name, path, spec in long:
+        if name not in pay:
+            continue
+        path = tuple((k, i) for k, i in path)
+        sub = _get(pay[name], path)
+        if isinstance(sub, str):
+            pay[name] = _set(pay[name], path, long_text(sub, spec))
+    return pay
+
+
+def _leaf_paths(v):
+    return [p for p in _paths(v) if not _is_container(_get(v, p))]
+
+
+def has_rx(x):
+    return any(is_rx(_get(x, p)) for p in _paths(x))
+
+
+def _rx_at(P, path):
+    """Is the pattern leaf at the same position a regex? (positions differ after structural mutations: best effort)"""
+    try:
+        return is_rx(_get(P, path))
+    except (KeyError, IndexError, TypeError):
+        return False
+
+
+@st.composite
+def _long(draw, name, P, V):
+    """Description of ONE long string for the received value V of parameter `name` (None if V has no string leaf): the leaf is
+    preferably one that is judged by a regex of P."""
+    strs = [p for p in _paths(V) if isinstance(_get(V, p), str)]
+    if not strs:
+        return None
+    on_rx = [p for p in strs if _rx_at(P, p)]
+    path = draw(st.sampled_from(on_rx)) if on_rx and draw(st.integers(0, 3)) > 0 else draw(st.sampled_from(strs))
+    n = draw(st.sampled_from(LONG_SIZES)) + draw(st.integers(0, 16))
+    where = draw(st.sampled_from(["end", "mid", "start", "mid"]))
+    spec = {"n": n, "where": where, "fill": draw(st.sampled_from(LONG_FILLERS)), "rx": path in on_rx}
+    if where == "mid":
+        # mostly around position 4096, sometimes anywhere
+        spec["at"] = draw(st.sampled_from(LONG_ATS)) if draw(st.integers(0, 3)) > 0 else draw(st.integers(1, n))
+    return [name, [list(step) for step in path], spec]
 
 
 @st.composite
@@ -589,9 +723,16 @@ def _case(draw):
     # one case in six (drawn; Hypothesis favours the small values, the observed share is the label many-extras): the event carries
     # VERY MANY (40-324) further parameters / container elements the statement does not mention; these cases prefer container patterns
     many = draw(st.integers(0, 5)) == 5
+    # one case in seven: ONE string leaf of every received value is LONG (5 000 - 20 000 characters, the drawn short text at the
+    # start of / inside (around position 4096) / at the very end of a filler text); the first pattern of these cases holds a regex
+    long_case = draw(st.integers(0, 6)) == 6
+    longs = []
     pats, pay, kinds = {}, {}, []
     for name in ["p", "q"][:nparams]:
         P = draw(pattern(draw(st.sampled_from([2, 1, 2, 3, 3] if many else [0, 1, 2, 2, 3, 3]))))
+        if long_case and name == "p" and not has_rx(P):
+            leaves = _leaf_paths(P)
+            P = _set(P, draw(st.sampled_from(leaves)), draw(regex)) if leaves else [draw(regex)]
         mode = draw(st.integers(0, 9))
         if mode == 0:
             V = draw(pattern(2).map(witness))  # independent payload
@@ -609,8 +750,14 @@ def _case(draw):
             kinds.append("param-missing")
         else:
             pay[name] = V
+            if long_case:
+                spec = draw(_long(name, P, V))
+                if spec:
+                    longs.append(spec)
     extra = draw(st.dictionaries(st.sampled_from(["x", "y"]), scalar, max_size=2))
     case = {"form": "param", "pattern": pats, "payload": pay, "extra": extra, "mut": kinds, "priority": draw(priority), "style": style}
+    if longs:
+        case["long"] = longs
     if many:
         case["bulk"] = draw(_bulk(pay))
     if via_action:
@@ -638,7 +785,61 @@ def strategy(tier):
     return _case()
 
 
+def _number_table():
+    # number table: every large number of the pool x (the number itself, its neighbours: +-1 / adjacent float / relative 1e-12..1e-9)
+    # as the whole parameter, inside a longer list, inside a larger dict (nested), inside a larger set; statement forms rotate
+    m = 0
+    for N in BIG_INTS + BIG_FLOATS:
+        for v in [N] + number_neighbours(N)[:6]:
+            shapes = ((N, v), ([1, N], [0, 1, v, 7]), ({"k1": {"id": N}}, {"k1": {"id": v, "k2": 1}, "k3": 2}), ({"__set__": [N]}, {"__set__": _uniq([v, 2])}))
+            for shape, (P, V) in enumerate(shapes):
+                m += 1
+                if (m + shape) % 2 and shape and v != N and isinstance(N, float):
+                    continue  # thin out the float neighbours in containers
+                base = {"pattern": {"p": P}, "payload": {"p": V}, "extra": {}, "mut": ["number-table"], "priority": ([None] * 4 + PRIORITIES)[m % 8]}
+                if m % 3 == 0:
+                    yield dict(base, form="param", via_var=True, second={"payload": {"p": witness(P)}, "extra": {}})
+                elif m % 3 == 1:
+                    yield dict(base, form="action_args", start_via_var=bool(m % 2))
+                else:
+                    yield dict(base, form="param")
+
+
+def _long_table():
+    # long-string table: every pool regex x (its witness, its non-witness) placed at the start of / inside (ending one before, at and
+    # one behind position 4096, starting at 4090 / 4100) / at the very end of a filler text of 4096-20000 characters; the regex bare,
+    # inside a list judged against a longer list, inside a dict, inside a dict inside a list; statement forms rotate
+    m = 0
+    for p, y, n in REGEX + REGEX_ZW:
+        rx = {"__regex__": p}
+        for s in (y, n):
+            if not isinstance(s, str):
+                continue
+            places = [("start", None), ("end", None)] + [("mid", at) for at in (4095 - len(s), 4096 - len(s), 4097 - len(s), 4090, 4100)]
+            for where, at in places:
+                m += 1
+                spec = {"n": LONG_SIZES[m % len(LONG_SIZES)], "where": where, "fill": LONG_FILLERS[m % 3], "rx": True}
+                if at is not None:
+                    spec["at"] = at
+                shape = m % 4
+                P, V, path = (
+                    (rx, s, []),
+                    (["a", rx], ["0", "a", s, 7], [["l", 2]]),
+                    ({"k1": rx}, {"k1": s, "k2": 2}, [["d", "k1"]]),
+                    ([{"k1": rx}], [{"k1": "zz"}, {"k1": s, "k2": 2}], [["l", 1], ["d", "k1"]]),
+                )[shape]
+                base = {"pattern": {"p": P}, "payload": {"p": V}, "extra": {}, "mut": ["long-table"], "priority": ([None] * 4 + PRIORITIES)[m % 8], "long": [["p", path, spec]]}
+                if m % 5 == 0:
+                    yield dict(base, form="param", via_var=True, second={"payload": {"p": witness(P)}, "extra": {}})
+                elif m % 5 == 1:
+                    yield dict(base, form="action_args", start_via_var=bool(m % 2))
+                else:
+                    yield dict(base, form="param")
+
+
 def enumerate_cases(tier):
+    yield from _number_table()
+    yield from _long_table()
     # exhaustive table: all (P, V) over leaves {2, "a"}, containers of <= 2 leaves, depth <= 2 for lists
     leaves = [2, "a"]
     lvl1 = list(leaves)
@@ -834,6 +1035,43 @@ def _bulk_labels(case):
     return out
 
 
+def _long_note(case):
+    if not case.get("long"):
+        return ""
+    return f" [long received strings: {case['long']} = the short text of the case at the start of / inside (at position `at`) / at the very end of n characters of filler text]"
+
+
+def _long_labels(case):
+    """Share of the long-string dimension: length class, placement of the short text, is the leaf judged by a regex, nesting."""
+    out = []
+    for name, path, spec in case.get("long") or []:
+        if name not in case["payload"]:
+            continue
+        path = tuple((k, i) for k, i in path)
+        s = _get(case["payload"][name], path)
+        n = spec["n"] + len(s)
+        out += ["long-value", "long-" + ("4000-4999" if n < 5000 else "5000-9999" if n < 10000 else "10000+"), "long-text-at-" + spec.get("where", "end")]
+        if spec.get("where") == "mid":
+            end = spec.get("at", 0) + len(s)
+            out.append("long-text-ends-at-4096" if end == 4096 else "long-text-around-4096" if 4080 <= end <= 4110 else "long-text-elsewhere")
+        out.append("long-on-regex-leaf" if spec.get("rx") else "long-on-other-leaf")
+        out.append("long-nested" if path else "long-top-level")
+    return sorted(set(out))
+
+
+def _num_labels(case):
+    """Share of the large-number dimension."""
+    out = set()
+    for P in case["pattern"].values():
+        for path in _paths(P):
+            x = _get(P, path)
+            if is_big(x):
+                out |= {"big-number", "big-int" if isinstance(x, int) else "big-float", "big-number-nested" if path else "big-number-top-level"}
+                if isinstance(x, int) and x > 2 ** 53:
+                    out.add("big-int-above-2^53")
+    return sorted(out)
+
+
 def _bulk_note(case):
     bulk = case.get("bulk")
     if not bulk:
@@ -922,14 +1160,14 @@ def _rebind_prop(case):
 def _action_args_case(case):
     """`match XAction(p=P).Finished()` refers to the action instances whose start arguments match P."""
     pats = case["pattern"]
-    pay, extra = expand_bulk(case["payload"], case["extra"], case.get("bulk"))
+    pay, extra = expand_bulk(expand_long(case["payload"], case.get("long")), case["extra"], case.get("bulk"))
     pay = dict(pay)
     pay.update(extra)
     style = case.get("style")
     try:
         expected = all(k in pay and ref_match(P, pay[k]) for k, P in pats.items())
-    except Unspecified:
-        return ok(skip="unspecified: regex vs bool/None")
+    except Unspecified as e:
+        return ok(skip="unspecified: " + ("regex vs bool/None" if "regex" in str(e) else "equal numbers of different types"))
     try:
         start_args = ", ".join(f"{k}={lit(v, style)}" for k, v in pay.items())
     except TypeError:
@@ -953,12 +1191,13 @@ def _action_args_case(case):
         raise Violation(
             "action-arguments-verdict",
             f"action started as XAction({_short(start_args)}){' after ' + _short(assigns.replace(chr(10), '; ').strip()) if assigns else ''}; {'`' + prio.strip() + '` then ' if prio else ''}`match XAction({pat_args}).Finished()` {'matched' if got else 'did not match'} its Finished event, rule says {'match' if expected else 'no match'}"
-            + _bulk_note(case),
+            + _bulk_note(case) + _long_note(case),
         )
     d = max(depth(P) for P in pats.values())
     zw = ["zero-width-regex"] if any(has_zw(P) for P in pats.values()) else []
     zw += _string_labels(case)
-    zw += _bulk_labels(case)
+    zw += _bulk_labels(case) + _long_labels(case) + _num_labels(case)
+    zw += sorted(set(case.get("mut", [])) & {"neighbour-number", "number-table", "long-table"})
     if case.get("start_via_var"):
         zw.append("action-start-arguments-held-in-variables")
     return ok(nt=d >= 1 or "escaped-string" in zw, labels=["action-args", "match" if expected else "no-match", f"depth{d}"] + zw + prio_labels, view={"start": f"XAction({_short(start_args)})", "statement": f"match XAction({pat_args}).Finished()", "matched": got})
@@ -972,15 +1211,15 @@ def prop(case):
     if case["form"] != "param":
         return _instance_case(case)
     pats = case["pattern"]
-    pay, extra = expand_bulk(case["payload"], case["extra"], case.get("bulk"))
+    pay, extra = expand_bulk(expand_long(case["payload"], case.get("long")), case["extra"], case.get("bulk"))
     style = case.get("style")
     args = ", ".join(f"{k}={lit(v, style)}" for k, v in pats.items())
     second = case.get("second")
     try:
         expected = all(k in pay and ref_match(P, pay[k]) for k, P in pats.items())
         expected2 = second is not None and all(k in second["payload"] and ref_match(P, second["payload"][k]) for k, P in pats.items())
-    except Unspecified:
-        return ok(skip="unspecified: regex vs bool/None")
+    except Unspecified as e:
+        return ok(skip="unspecified: " + ("regex vs bool/None" if "regex" in str(e) else "equal numbers of different types"))
     if case.get("via_var"):
         setup = "".join(f"  $v_{k} = {lit(v, style)}\n" for k, v in pats.items())
         stmt_args = ", ".join(f"{k}=$v_{k}" for k in pats)
@@ -1005,7 +1244,7 @@ def prop(case):
     if got != expected:
         raise Violation(
             "match-verdict",
-            f"{desc} on event {_short(repr(event))}: interpreter {'matched' if got else 'did not match'}, rule says {'match' if expected else 'no match'}" + _bulk_note(case),
+            f"{desc} on event {_short(repr(event))}: interpreter {'matched' if got else 'did not match'}, rule says {'match' if expected else 'no match'}" + _bulk_note(case) + _long_note(case),
         )
     if second is not None:
         event2 = {"type": "Ev"}
@@ -1031,7 +1270,7 @@ def prop(case):
         labels.append("same-statement-second-event")
     if extra:
         labels.append("unmentioned-params")
-    labels += _bulk_labels(case)
+    labels += _bulk_labels(case) + _long_labels(case) + _num_labels(case)
     if any(has_zw(P) for P in pats.values()):
         labels.append("zero-width-regex")
     labels += prio_labels + slabels
